@@ -8,6 +8,17 @@ result by result, by the sequential cache model `Model.Cache.step` (model
 observation) resp. by the reference LRU `Spec.LruRef.step` (spec verdict),
 including the order of the eviction callbacks and the final `Len`/`Size`.
 The search is a depth-first enumeration of linearizations with memoisation.
+
+Fail closed (audit item A7): the recorded history is first checked against the
+workload of the `run` line (`wellFormed`).  Any event token that does not
+parse, any call of the workload that is missing from the record, any recorded
+call the workload does not contain (per thread the recorded calls must be the
+thread's program, in program order — or a prefix of it ending in a recorded
+panic, after which the harness stops that thread), any tick that is not one of
+`1 … 2·(number of events)` used exactly once with `inv < res` and program order
+respected, or an observation that is not exactly `hist=…;ev=…;len=…;size=…`
+makes the model observation `malformed-history <why>` and the verdict
+`bad malformed-history <why>`: nothing the driver cannot read is dropped.
 -/
 namespace MdsVerif.Drv.C09
 open MdsVerif.Drv MdsVerif.Model.Cache MdsVerif.Spec
@@ -15,6 +26,8 @@ open MdsVerif.Drv MdsVerif.Model.Cache MdsVerif.Spec
 structure Ev where
   tid : Nat
   op : Op
+  /-- the op token as recorded (`put:1:7`), compared with the workload -/
+  raw : String := ""
   inv : Nat
   res : Nat
   result : String
@@ -34,8 +47,63 @@ def parseOp (s : String) : Option Op :=
 def parseEv (s : String) : Option Ev :=
   match s.splitOn "/" with
   | [tid, op, inv, res, result] => do
-    pure { tid := ← tid.toNat?, op := ← parseOp op, inv := ← inv.toNat?, res := ← res.toNat?, result := result }
+    pure { tid := ← tid.toNat?, op := ← parseOp op, raw := op, inv := ← inv.toNat?, res := ← res.toNat?, result := result }
   | _ => none
+
+/-- one token `<tid>:<op>:<args…>` of the `run` line -/
+def parseProg (t : String) : Option (Nat × String) :=
+  match t.splitOn ":" with
+  | tid :: o :: rest => do
+    let raw := ":".intercalate (o :: rest)
+    let _ ← parseOp raw
+    pure (← tid.toNat?, raw)
+  | _ => none
+
+/-- every element of `ts` parsed, or the first token that does not parse -/
+def parseAll (f : String → Option α) : List String → Except String (List α)
+  | [] => .ok []
+  | t :: ts => match f t with
+    | none => .error t
+    | some a => (parseAll f ts).map (a :: ·)
+
+/-- each tick `1 … 2n` used exactly once (`n` events) -/
+def ticksOk (evs : List Ev) : Bool :=
+  let m := 2 * evs.length
+  let marks := evs.foldl (fun (acc : Option (Array Bool)) e =>
+      [e.inv, e.res].foldl (fun acc t => acc.bind fun a =>
+        if t == 0 || t > m || a.getD (t - 1) true then none else some (a.set! (t - 1) true)) acc)
+    (some (Array.replicate m false))
+  marks.isSome
+
+/-- within one thread: `inv < res`, and a call is invoked after the previous one returned -/
+def seqOk : List Ev → Bool
+  | [] => true
+  | [e] => e.inv < e.res
+  | e :: e' :: rest => e.inv < e.res && e.res < e'.inv && seqOk (e' :: rest)
+
+/-- the recorded calls of a thread against its program: equal, or a prefix ending in a recorded panic -/
+def threadOk (prog : List String) (recd : List Ev) : Bool :=
+  let ops := recd.map (·.raw)
+  ops == prog ||
+    (ops.length < prog.length && ops == prog.take ops.length &&
+      (match recd.getLast? with | some e => e.result.startsWith "panic:" | none => false))
+
+/-- the history recorded in the observation, checked against the workload tokens; `.error why` when it is not
+a complete, readable record of exactly that workload -/
+def wellFormed (prog : List String) (impl : String) : Except String (List Ev) := do
+  let (h, e, l, z) := (field impl "hist", field impl "ev", field impl "len", field impl "size")
+  if impl != s!"hist={h};ev={e};len={l};size={z}" then throw "observation is not hist=…;ev=…;len=…;size=…"
+  let prog ← (parseAll parseProg prog).mapError (s!"unparsable workload token {·}")
+  let evs ← (parseAll parseEv (if h == "" then [] else h.splitOn " ")).mapError (s!"unparsable event {·}")
+  let tids := (prog.map (·.1) ++ evs.map (·.tid)).foldl (fun acc t => if acc.contains t then acc else acc ++ [t]) []
+  for t in tids do
+    let p := (prog.filter (·.1 == t)).map (·.2)
+    let r := evs.filter (·.tid == t)
+    if !threadOk p r then
+      throw s!"thread {t}: recorded calls {r.map (·.raw)} are not the workload's {p} (nor a prefix ending in a panic)"
+    if !seqOk r then throw s!"thread {t}: ticks do not respect program order"
+  if !ticksOk evs then throw s!"ticks are not 1..{2 * evs.length} each used once"
+  return evs
 
 /-- group events by thread, keeping program order -/
 def byThread (evs : List Ev) : List (List Ev) :=
@@ -99,18 +167,22 @@ def refSys (limit : Int) : Sys LruRef.R × LruRef.R :=
 def step (_ : Unit) (toks : List String) (impl : String) : Unit × String × String :=
   match toks with
   | ["reset"] => ((), "-", "ok")
-  | "run" :: limit :: _procs :: _ =>
-    let limit : Int := (limit.toNat?.getD 1 : Nat)
-    let evs := ((field impl "hist").splitOn " ").filterMap parseEv
-    let ths := byThread evs
-    let want := fmtFinal (C08.step.parseEv (field impl "ev")) (field impl "len") (field impl "size")
-    let n := evs.length + 1
-    let (msys, m0) := modelSys limit
-    let (rsys, r0) := refSys limit
-    let okM := (search msys want n ths m0 []).1
-    let okR := (search rsys want n ths r0 []).1
-    ((), if okM then impl else "not-linearizable-wrt-cache-model",
-     verdict okR "C09 history has no linearization explained by the reference LRU cache (results, callback order, final Len/Size)")
+  | "run" :: limit :: _procs :: prog =>
+    match limit.toNat?, wellFormed prog impl with
+    | none, _ => ((), "bad-op", "bad bad-op")
+    | _, .error why => ((), s!"malformed-history {why}", s!"bad malformed-history {why}")
+    | some limit, .ok evs =>
+      let limit : Int := limit
+      let ths := byThread evs
+      -- the final observation as printed by the implementation (raw text: nothing in it is dropped)
+      let want := s!"{field impl "ev"}|{field impl "len"}|{field impl "size"}"
+      let n := evs.length + 1
+      let (msys, m0) := modelSys limit
+      let (rsys, r0) := refSys limit
+      let okM := (search msys want n ths m0 []).1
+      let okR := (search rsys want n ths r0 []).1
+      ((), if okM then impl else "not-linearizable-wrt-cache-model",
+       verdict okR "C09 history has no linearization explained by the reference LRU cache (results, callback order, final Len/Size)")
   | _ => ((), "bad-op", "bad bad-op")
 
 def stream : Stream := { name := "C09", σ := Unit, init := (), step := step }
